@@ -5,7 +5,8 @@ from . import core, lw
 REGIONS = list(range(9))
 FIXED = (4, 8)
 DYN = (0, 1, 2, 3, 5, 6, 7)
-RX2 = {0: 923200000, 1: 921400000, 2: 916500000, 3: 917300000, 4: 923300000, 5: 869525000, 6: 434665000, 7: 866550000, 8: 923300000}
+# RP002 RX2 default frequencies, written from the specification (AS923-n: 923.2 MHz + group offset 0 / -1.8 / -6.6 / -5.9 MHz), not from the code
+RX2 = {0: 923200000, 1: 923200000 - 1800000, 2: 923200000 - 6600000, 3: 923200000 - 5900000, 4: 923300000, 5: 869525000, 6: 434665000, 7: 866550000, 8: 923300000}
 FREQ_OK = {0: 923300000, 1: 921800000, 2: 916900000, 3: 917900000, 4: 915200000, 5: 867100000, 6: 433975000, 7: 866100000, 8: 902300000}
 # region-defined LoRa data rates (as the implementation's tables define them; regenerated tables are in Gen/RegionTables.v)
 DEFINED = {0: range(0, 7), 1: range(0, 7), 2: range(0, 7), 3: range(0, 7), 4: list(range(0, 7)) + list(range(8, 14)),
